@@ -512,6 +512,40 @@ class Pipeline:
             used_parameters.add(arg)
         return func_args
 
+    def _validate_run_kwargs(
+        self,
+        output_name: OUTPUT_TYPE,
+        flat_scope_kwargs: dict[str, Any],
+    ) -> None:
+        """Raise for missing or unused keyword arguments *before* any function is executed.
+
+        Walks the functions that `_run` would execute for ``output_name`` (it stops at bound and
+        at supplied names, exactly like `_get_func_args`) without calling anything.
+        """
+        used: set[str] = set()
+        visited: set[OUTPUT_TYPE] = set()
+
+        def visit(name: OUTPUT_TYPE) -> None:
+            if name in flat_scope_kwargs or name in visited:
+                return
+            func = self.output_to_func[name]
+            visited.update((func.output_name, *at_least_tuple(func.output_name)))
+            for arg in func.parameters:
+                if arg in func._bound or arg in flat_scope_kwargs:
+                    pass
+                elif arg in self.output_to_func:
+                    visit(arg)
+                elif arg not in self.defaults:
+                    msg = f"Missing value for argument `{arg}` in `{func}`."
+                    raise ValueError(msg)
+                used.add(arg)
+
+        visit(output_name)
+        if unused := flat_scope_kwargs.keys() - used:
+            unused_str = ", ".join(sorted(unused))
+            msg = f"Unused keyword arguments: `{unused_str}`. kwargs={flat_scope_kwargs}, used_parameters={used}"
+            raise UnusedParametersError(msg)
+
     def _current_cache(self) -> LRUCache | HybridCache | DiskCache | SimpleCache | None:
         """Return the cache used by the pipeline."""
         if not isinstance(self.cache, SimpleCache) and (tg := task_graph()) is not None:
@@ -622,6 +656,7 @@ class Pipeline:
             raise ValueError(msg)
 
         flat_scope_kwargs = self._flatten_scopes(kwargs)
+        self._validate_run_kwargs(output_name, flat_scope_kwargs)
 
         all_results: dict[OUTPUT_TYPE, Any] = flat_scope_kwargs.copy()  # type: ignore[assignment]
         used_parameters: set[str | None] = set()
@@ -633,15 +668,6 @@ class Pipeline:
             full_output=full_output,
             used_parameters=used_parameters,
         )
-
-        # if has None, result was from cache, so we don't know which parameters were used
-        if None not in used_parameters and (
-            unused := flat_scope_kwargs.keys() - set(used_parameters)
-        ):
-            unused_str = ", ".join(sorted(unused))
-            msg = f"Unused keyword arguments: `{unused_str}`. {kwargs=}, {used_parameters=}"
-            raise UnusedParametersError(msg)
-
         return all_results if full_output else all_results[output_name]
 
     def map(
